@@ -84,4 +84,18 @@ def addSievingPrime (M size : Nat) (init : List (Nat × Nat)) (stop prime segmen
       some { sp := prime / 30, idx := (multiple - segmentLow) / 30,
              w := Gen.wheelOffsetUnits.getD (prime % 30) 0 * size + e.2 }
 
+/-- the same function over unbounded integers: what addSievingPrime computes when nothing wraps -/
+def addSievingPrimeExact (M size : Nat) (init : List (Nat × Nat)) (stop prime segmentLow0 : Nat) : Option SP :=
+  let segmentLow := segmentLow0 + 6
+  let quotient := max prime (segmentLow / prime + 1)
+  let multiple := prime * quotient
+  if multiple > stop then none
+  else
+    let e := init.getD (quotient % M) (0, 0)
+    let nextMultiple := prime * e.1
+    if multiple + nextMultiple > stop then none
+    else
+      some { sp := prime / 30, idx := (multiple + nextMultiple - segmentLow) / 30,
+             w := Gen.wheelOffsetUnits.getD (prime % 30) 0 * size + e.2 }
+
 end Ps.Wheel
